@@ -246,6 +246,9 @@ fn main() {
     let no: usize = groups.iter().map(|g| g.opts.len()).sum();
     let nb = built_sources(tier).len();
     let nf = foreign_sources(tier).len();
+    let nd = damaged_sources(tier).len();
+    let dgroups = damaged_groups(tier);
+    let (ndg, ndo) = (dgroups.len(), dgroups.iter().map(|g| g.opts.len()).sum::<usize>());
     c.rule = format!(
         "case = (source archive, option head (target, compression override, block-size override)); inside a case every admitted \
          combination of the five boolean options is run on the same source, so every (source, option tuple) pair of the bound is \
@@ -255,7 +258,17 @@ fn main() {
          {{preserve,V1..V4,modernize}} x compression override {{-,none,zlib,bzip2}} x block-size override {{-,0,8}} x skip_encrypted x \
          skip_signatures x verify x list_only x preserve_order; quick = all tuples with at most 2 deviations from \
          RebuildOptions::default(), thorough = full product. A case is non-trivial when rebuild_archive returned Ok for at least one \
-         flag combination (every source holds at least one user file); distinct by (source configuration, option head)."
+         flag combination (every source holds at least one user file); distinct by (source configuration, option head). \
+         Space `damaged` = sources in which exactly ONE listed file cannot be read and every other file is intact ({nd} sources): four files \
+         (single-sector, multi-sector, 5-byte, sector+1) written by the real ArchiveBuilder (V1..V4) or by the independent mpqref writer \
+         (V1/V2; layouts {{mixed, all sectored, all single-unit}}) x compression x per-file crypto x sector checksums on/off x victim x damage \
+         {{stored bytes := 0xFF, method byte := 0x04, sector offset table := 0xFF, block entry: compressed size halved / PATCH flag / position \
+         beyond the archive (classic block table decrypted, edited, re-encrypted: V1/V2 only), one bit of a stored sector checksum flipped}}, \
+         keeping only the tuples whose damage makes the read fail (a sectored file without checksums is read leniently, see assumptions); \
+         crossed with {ndo} option tuples in {ndg} heads (quick: targets preserve/V1/V3/V4, preserve+override none, V2+override bzip2, each with the \
+         default flags, every flag flipped alone and skip_encrypted+verify; thorough: the full option product). A damaged case is \
+         non-trivial when its set-up was confirmed (the library's reader and, for V1/V2, the independent reader fail on the victim and \
+         return every other file bit-identical) and rebuild_archive was called; distinct by (source tuple incl. victim and damage, option head)."
     );
     c.assume("ground truth = the generator's own (name, bytes, encrypted) list; the listed names of a source are the lines of its (listfile) as read by the independent reader refimpl::mpqref (fallback: generator knowledge)");
     c.assume("a source without (listfile) has no listed names: nothing is demanded to be carried over, but whatever user file is present in the target must be bit-identical and nothing unknown may appear");
@@ -263,12 +276,19 @@ fn main() {
     c.assume("rebuild_archive returning Err without leaving a target file is a legitimate refusal (err_return); Err with a target left behind is judged by the target's content");
     c.assume("compare_archives is required to report no content difference (content_differences empty, no uncompressed-size difference) for every Ok rebuild; set differences and compressed-size/flag differences are not judged");
     c.assume("the target's entry count is taken from an independent parse (mpqref) of the target's classic block table; the library's own block_table() is the fallback when the independent parse refuses the file");
+    c.assume("damaged space: ground truth is what the UNDAMAGED source held. rebuild_archive returning Err (at any stage, with or without a target left behind) is the acceptable answer; Ok is judged like any other rebuild: every listed file the options do not exclude, the unreadable one included, must be in the target bit-identical to the undamaged content, files excluded by skip_encrypted/skip_signatures must be absent (the victim too when it is excluded, in which case Ok is expected), counts must be truthful (list_only: the unreadable file may be reported as skipped). compare_archives is not judged on damaged sources");
+    c.assume("damaged space: 'cannot be read' is established per case by Archive::read_file failing on the victim and (V1/V2) the independent reader failing or disagreeing with the undamaged bytes; a set-up where the library reads the damaged file without error, or where another file does not read back, is counted (damaged_setup_not_a_case) and not judged. Not in the space: sectored files without sector checksums whose sector data is damaged — Archive::read_file replaces an undecodable sector by zeros and returns Ok, so the rebuild has no way to notice");
     c.run_space("built", "");
     c.run_space("foreign", "");
+    c.run_space("damaged", "");
     c.extra_cov.insert("axes".into(), axes_json(tier));
     c.extra_cov.insert("option_tuples".into(), json!(no));
     c.extra_cov.insert("option_heads".into(), json!(ng));
     c.extra_cov.insert("built_sources".into(), json!(nb));
     c.extra_cov.insert("foreign_sources".into(), json!(nf));
+    c.extra_cov.insert("damaged_sources".into(), json!(nd));
+    c.extra_cov.insert("damaged_option_tuples".into(), json!(ndo));
+    c.extra_cov.insert("damaged_option_heads".into(), json!(ndg));
+    c.extra_cov.insert("damaged_axes".into(), damaged_axes_json(tier));
     c.finish();
 }
